@@ -14,7 +14,7 @@ theorem split_flat_nil_none (zero : α) (parts : Nat) :
     (Arr.flat ([] : List α)).split zero parts none =
       if parts = 0 then .err .ParameterError else .ok [Arr.flat []] := by
   unfold Arr.split
-  simp [Arr.isEmpty, Arr.flat]
+  simp [Arr.isEmpty, Arr.flat, Arr.ndim]
 
 theorem elems_nil_of_prod_zero (a : Arr α) (hwf : a.WF) (h : a.shape.prod = 0) : a.elems = [] :=
   List.eq_nil_of_length_eq_zero (by rw [hwf, h])
@@ -185,7 +185,7 @@ theorem split_isEmpty (a : Arr α) (zero : α) (parts axis : Nat) (he : a.isEmpt
     (hp : parts ≠ 0) : a.split zero parts (some axis) = .ok [a] := by
   have hd : ¬ (decide (axis ≥ a.ndim) = true) := by simp; omega
   unfold Arr.split
-  simp only [hd, he, hp, Bool.false_eq_true, if_false, if_true]
+  simp only [Option.getD_some, hd, he, hp, Bool.false_eq_true, if_false, if_true]
 
 /-- **`repeat` along an axis, an empty axis OTHER than the working axis** (the working axis itself is not empty), counts
 of the axis length or a single count: the empty array with the working axis set to the sum of the counts -/
